@@ -266,6 +266,7 @@ pub fn run(ctx: &Ctx) {
     }
     ctx.enumerate("special_inputs", sp.len() as u64, false, |i| sp[i as usize].clone(), |c| special(c, pool));
 
+    crate::props::common::fuzz_regress(ctx, "fz_verify");
     // (b) random structure-aware and raw mutations
     let cases = ctx.tier.pick(150_000u32, 2_000_000u32);
     ctx.random("mutations", &wire::mut_case, cases, Opts { shrink_iters: 300, ..Opts::default() }, |c: &MutCase| {
